@@ -464,9 +464,22 @@ class Model:
                 domains[var1.name] = valid1
                 domains[var2.name] = valid2
 
-        elif all(len(domains[var.name]) == 1 for var, _ in terms):
-            # Any other shape is checked once its variables are assigned
-            total = const + sum(coef * next(iter(domains[var.name])) for var, coef in terms)
-            return (total != 0) if is_ne else (total == 0)
+        elif is_ne:
+            # Checked once every variable is assigned
+            if all(len(domains[var.name]) == 1 for var, _ in terms):
+                return const + sum(coef * next(iter(domains[var.name])) for var, coef in terms) != 0
+
+        else:
+            # Bounds reasoning: a value stays only if the other terms can still bring the sum to zero
+            lows = [min(coef * min(domains[var.name]), coef * max(domains[var.name])) for var, coef in terms]
+            highs = [max(coef * min(domains[var.name]), coef * max(domains[var.name])) for var, coef in terms]
+            low, high = const + sum(lows), const + sum(highs)
+            if low > 0 or high < 0:
+                return False
+            for (var, coef), lo, hi in zip(terms, lows, highs):
+                keep = {v for v in domains[var.name] if hi - high <= coef * v <= lo - low}
+                if not keep:
+                    return False
+                domains[var.name] = keep
 
         return True
